@@ -9,6 +9,7 @@ harness (harness/cmd/c07, `Pandora.Drv.C07`); the helper lemmas are in `Pandora/
 -/
 import Pandora.Proofs.C07Extra
 import Pandora.Proofs.C07Heap
+import Pandora.Proofs.C07Frame
 import Pandora.Bridge.C07
 
 namespace Pandora.Props.C07
@@ -264,6 +265,60 @@ theorem C07_alias_counterexample : ¬ ∀ acts : List Act, readsRight false [] a
   revert h1
   decide
 
+/-! ### … and forgotten at each new pass: what the decoder does to the accumulator when the file wraps around (round 3) -/
+
+/-- a cloning decoder that, at the end of a pass, gives itself a NEW accumulator map or EMPTIES the old one in place
+(`clear(d.header)`): in every interleaving of decoder steps, passes and `BuildRequest`s every request sees the header
+lines of its own pass only.  (Emptying in place is safe because no delivered ammo holds the accumulator cell.) -/
+theorem C07_pass_reset_isolates (reset : PassReset) (hf : reset.forgets = true) (cfg : Hdrs) (acts : List Act) :
+    readsRightR reset cfg acts :=
+  reset_readsRight reset hf cfg acts
+
+/-- the same for the CURRENT source: the end-of-pass behaviour regenerated from `uriDecoder.Scan` / `uripostDecoder.Scan` -/
+theorem C07_pass_reset_regenerated (cfg : Hdrs) (acts : List Act) :
+    readsRightR Pandora.Gen.AmmoDec.uriPassReset cfg acts ∧ readsRightR Pandora.Gen.AmmoDec.uripostPassReset cfg acts :=
+  ⟨reset_readsRight _ Pandora.Bridge.C07.passReset_forgets.1 cfg acts,
+   reset_readsRight _ Pandora.Bridge.C07.passReset_forgets.2 cfg acts⟩
+
+/-- the claim for a decoder that leaves its accumulator alone at the end of a pass … -/
+def C07_pass_reset_kept_statement : Prop := ∀ (cfg : Hdrs) (acts : List Act), readsRightR .kept cfg acts
+
+/-- … holds as long as the file is read once (no `newPass` among the decoder's steps: why a single-pass test passes) … -/
+theorem C07_pass_reset_kept_partial (cfg : Hdrs) (acts : List Act) (h1 : LineEv.newPass ∉ decEvs acts) :
+    readsRightR .kept cfg acts := by
+  have hrun : ∀ (acts : List Act) (s : RefState), LineEv.newPass ∉ decEvs acts →
+      runRefR .kept cfg s acts = runRef true cfg s acts := by
+    intro acts
+    induction acts with
+    | nil => intro s _; rfl
+    | cons a r ih =>
+      intro s hn
+      cases a with
+      | read j => exact ih _ (by simpa [decEvs] using hn)
+      | dec e =>
+        cases e with
+        | newPass => simp [decEvs] at hn
+        | hdr k v => exact ih _ (by simpa [decEvs] using hn)
+        | req am => exact ih _ (by simpa [decEvs] using hn)
+  intro jh hjh
+  rw [hrun acts _ h1] at hjh
+  exact clone_readsRight cfg acts jh hjh
+
+/-- the witness: `[X: 1]`, an entry, end of file, the entry again, then the request of the second delivery is built -/
+def keptWitness : List Act :=
+  [.dec (.hdr [88] [49]), .dec (.req { method := getBytes, url := [47, 97], body := [], tag := [], hdrs := [] }),
+   .dec .newPass, .dec (.req { method := getBytes, url := [47, 97], body := [], tag := [], hdrs := [] }), .read 1]
+
+/-- … and is false over two passes: an entry that precedes the header line in the file is delivered WITH it in pass 2 -/
+theorem C07_pass_reset_needed : ¬ C07_pass_reset_kept_statement := by
+  intro h
+  have h1 := h [] [.dec (.req { method := getBytes, url := [47, 97], body := [], tag := [], hdrs := [] }),
+    .dec (.hdr [88] [49]), .dec .newPass,
+    .dec (.req { method := getBytes, url := [47, 97], body := [], tag := [], hdrs := [] }), .read 1]
+    (1, [([88], [49])]) (by decide)
+  revert h1
+  decide
+
 /-! ### line length: the uri format has the `bufio.Scanner` token limit (64 KiB), uripost and raw have none -/
 
 /-- the uri round trip WITHOUT the hypothesis that every line fits a Scanner token.  It is FALSE for the code
@@ -438,6 +493,62 @@ theorem C07_json_badmethod (e : Entity) (r : List Entity) (h : validMethod e.met
     jsonPass (e :: r) = ([], .err .badmethod) := by
   simp [jsonPass, entityAmmo, h]
 
+/-! ### raw: the REQUESTS written in the frames (round 3)
+
+`C07_raw_frames` delivers every frame byte for byte.  What a frame SAYS is HTTP text; `frameReq`
+(`Pandora.Model.C07Frame`) reads it the way `raw.DecodeRequest` = `net/http.ReadRequest` does (checked against the
+library on every generated frame by the harness) and the theorems below show that it reads back exactly what an author
+wrote: request line, every header line in order with its value, the body — for ALL methods, targets, header lists,
+bodies (arbitrary bytes), CRLF or LF line ends and any blanks after the colon. -/
+
+/-- raw entries written by an author: a tag and a request description each -/
+def rawItems (qs : List (Bytes × FrameSrc)) : List Item := qs.map fun tq => .frame tq.1 (renderFrame tq.2)
+
+/-- the LINES of a rendered frame are the lines written: method, target, header lines (canonical key, exact value;
+the `Content-Length` of the body last), and the bytes after the blank line are the body -/
+theorem C07_raw_frame_text (q : FrameSrc) (h : srcOK q = true) :
+    frameLines (renderFrame q) = some (q.method, q.target, canonLines q.lines, q.body.getD []) :=
+  frameLines_render q h
+
+/-- … and the REQUEST read from it is the request described: `srcReq` (method, path+query, Host from the authority or
+the `Host` line, header lines merged per canonical name in file order, body as written) -/
+theorem C07_raw_frame_request (q : FrameSrc) (h : srcOK q = true) (hp : srcPlain q = true) :
+    frameReq (renderFrame q) = some (srcReq q) :=
+  frameReq_render q h hp
+
+/-- the body of the request is the body written, byte for byte, whatever it contains -/
+theorem C07_raw_body_exact (q : FrameSrc) (b : Bytes) (hq : q.body = some b) (h : srcOK q = true) (hp : srcPlain q = true) :
+    (frameReq (renderFrame q)).map (·.body) = some b := by
+  rw [C07_raw_frame_request q h hp]
+  simp [srcReq, hq]
+
+/-- **raw, end to end**: a file of size-prefixed frames written from request descriptions, in any permitted layout,
+any limit, both modes: delivery i carries the tag and the REQUEST of entry i mod n -/
+theorem C07_raw_requests (qs : List (Bytes × FrameSrc)) (lay : Layout) (k : Nat) (pre : Bool)
+    (hi : itemsOK .raw (rawItems qs) = true) (hl : layoutOK lay = true)
+    (hq : ∀ tq ∈ qs, srcOK tq.2 = true ∧ srcPlain tq.2 = true) :
+    (rawDeliver (render .raw (rawItems qs) lay) k pre).1.map (fun a => (a.tag, frameReq a.frame)) =
+      cycleTake (qs.map fun tq => (tq.1, some (srcReq tq.2))) k := by
+  rw [C07_raw_frames (rawItems qs) lay k pre hi hl]
+  have hexp : expFrames (rawItems qs) = qs.map fun tq => ({ frame := renderFrame tq.2, tag := tq.1 } : RawAmmo) := by
+    induction qs with
+    | nil => rfl
+    | cons a r ih =>
+      have := ih (by simpa [rawItems, itemsOK] using (by simpa [rawItems, itemsOK] using hi : _ ∧ _).2)
+        (fun tq htq => hq tq (List.mem_cons_of_mem _ htq))
+      simpa [rawItems, expFrames] using this
+  have hfst : (cycled (expFrames (rawItems qs)) k).1 = cycleTake (expFrames (rawItems qs)) k := by
+    unfold cycled
+    split
+    · rename_i he
+      rw [List.isEmpty_iff.mp he, cycleTake_nil]
+    · rfl
+  rw [hfst, cycleTake_map, hexp, List.map_map]
+  congr 1
+  apply List.map_congr_left
+  intro tq htq
+  simp [Function.comp, C07_raw_frame_request tq.2 (hq tq htq).1 (hq tq htq).2]
+
 /-! ### non-vacuity: concrete well-formed files meeting the hypotheses -/
 
 /-- `/a t`, `[X-A: v]`, `/b?q=1 my tag`  (byte strings are written out: `String.toUTF8` does not reduce in the kernel) -/
@@ -552,5 +663,29 @@ example : render .uri exItems exLayU ≠ render .uri exItems exLay := by decide
 /-- `http://h.x:8080/a?b=c` meets the hypotheses of `C07_absolute_target`, and such entries are inside `targetsKnown` -/
 example : hostOK [104, 46, 120, 58, 56, 48, 56, 48] = true ∧ uriOK [47, 97, 63, 98, 61, 99] = true
     ∧ targetsKnown [.req (httpPrefix ++ [104, 46, 120, 58, 56, 48, 56, 48] ++ [47, 97, 63, 98, 61, 99]) [116] []] = true := by decide
+
+/-- round 3 — a request description: `PUT http://h.x:8080/a?b=c HTTP/1.1`, lines `x-a: v`, `Host: ignored`, `X-A: w`
+(two spellings of one name), LF line ends, the body `⏎[A: b]⏎` + NUL -/
+def exSrc : FrameSrc :=
+  { method := [80, 85, 84], target := httpPrefix ++ [104, 46, 120, 58, 56, 48, 56, 48] ++ [47, 97, 63, 98, 61, 99]
+    hdrs := [([120, 45, 97], [118]), ([72, 111, 115, 116], [105, 103, 110, 111, 114, 101, 100]), ([88, 45, 65], [119])]
+    body := some [10, 91, 65, 58, 32, 98, 93, 10, 0], crlf := false, gap := [SP, 9] }
+/-- the same without a body (every function involved then reduces in the kernel) -/
+def exSrc0 : FrameSrc := { exSrc with body := none, crlf := true }
+example : srcOK exSrc = true ∧ srcPlain exSrc = true ∧ srcOK exSrc0 = true ∧ srcPlain exSrc0 = true := by decide
+/-- what it denotes: Host is the authority (the `Host` line is dropped), the two `X-A` lines make one header with both
+values in file order -/
+example : srcReq exSrc0 = { method := [80, 85, 84], uri := [47, 97, 63, 98, 61, 99], host := [104, 46, 120, 58, 56, 48, 56, 48]
+                            hdrs := [([88, 45, 65], [[118], [119]])], body := [] } := by decide
+example : itemsOK .raw (rawItems [([116], exSrc0)]) = true := by decide
+example : (frameReq (renderFrame exSrc)).map (·.body) = some [10, 91, 65, 58, 32, 98, 93, 10, 0] :=
+  C07_raw_body_exact exSrc _ rfl (by decide) (by decide)
+
+/-- round 3 — the end-of-pass witness meets the hypotheses of `C07_pass_reset_isolates` for both safe resets, and under
+`cleared` the second pass's delivery is read with the header set of its own pass -/
+example : PassReset.fresh.forgets = true ∧ PassReset.cleared.forgets = true ∧ PassReset.kept.forgets = false := by decide
+example : (runRefR .cleared [] RefState.init keptWitness).reads = [(1, [])] := by decide
+example : (runRefR .kept [] RefState.init keptWitness).reads = [(1, [([88], [49])])] := by decide
+example : LineEv.newPass ∉ decEvs aliasWitness := by decide
 
 end Pandora.Props.C07
